@@ -158,3 +158,29 @@ TABLE["C05"] = {
     "level_text": "Theorem C05_safe: for every body script (any order of installs, counted/rejected/plain calls, refusals, user panic; the first panic wherever it occurs, or none) the release of the injector in the order read from the source never aborts, raises at most one panic in total, frees the guard, and restores memory, mappings and guards (through C02_restores); C05_refused: a refused installation changes nothing; C05_exit_once: scope-exit verification panics exactly once iff some expectation is unsatisfied. Correspondence: real panics in forked children.",
     "level_note": "Trusted: Lean kernel, translator facts (verifier tests panicking(), gates precede patching, release order), unwinding semantics.",
 }
+
+SIG_PIPE = {"name": "sigs", "cmd": ["sigs"], "n_quick": 1, "n_thorough": 1, "timeout": 600}
+SIG_RULE = ("a family of 36 function-pointer types differing in arity (0-3), one parameter type, return type, reference mutability, raw-pointer mutability, unsafety, ABI (Rust, C, system), "
+            "including adversarial return types that end in `-> bool` (fn() -> bool, *const fn() -> bool, &dyn Fn() -> bool), a user type named bool, (bool,), Option<bool>: "
+            "rustc's type_name of every type vs the model's rendering; all 1296 ordered pairs through func!/func!, plus closure! and fake! replacements, typed-with-unchecked both ways, null pointers, "
+            "all 36 ordered pairs of async output types, and the forced-boolean gate on every family type; pairs differing only in lifetime spelling are run but not judged. Exhaustive over the family")
+TABLE["C09"] = {
+    "pipelines": [SIG_PIPE],
+    "fail_keys": ["c09."],
+    "filter_prefix": ["sigty", "sigpair", "sigmix", "signull", "sigasync"],
+    "trusted_base": TB_COMMON + ["std::any::type_name renders types by the token grammar of Model/Sig.lean with the spelling of Driver/SigD.spell (validated on the family; lifetimes and `for<..>` binders stripped before comparison)", "the step from distinct token lists to distinct strings"],
+    "rule": SIG_RULE,
+    "assumptions": ["rustc's rendering of types outside the family follows the same grammar"],
+    "level_text": "Theorems: the gate is exactly equality of the recorded renderings (C09_gate); typed paired with unchecked is always refused because no rendered type is empty (C09_unchecked_mix); identical writing accepted; unsafety, ABI and reference mutability are visible in the rendering; gates precede patching and null is rejected (facts extracted from the source, C09_source). Injectivity of the rendering on the whole grammar is NOT yet proved in Lean (planned: render_inj); on the family it is established by the exhaustive all-pairs run against rustc and the real macros.",
+    "level_note": "Partial: full injectivity of `render` is validated on the 36-type family, not proved for all types.",
+}
+TABLE["C10"] = {
+    "pipelines": [SIG_PIPE, {"name": "enc-x86-debug", "cmd": ["enc-x86"], "n_quick": 10, "n_thorough": 10}, HIST_PIPE],
+    "fail_keys": ["c10.", "c01.follow"],
+    "filter_prefix": ["boolgate", "x86bool", "hist"],
+    "trusted_base": TB_COMMON + [ISA_X86, "type_name grammar as for C09"],
+    "rule": SIG_RULE + "; the stub bytes for both values run through the ISA fragment from a sentinel register file with a return address on the stack; boolean installs inside the install/drop histories are really called (value 0/1 observed)",
+    "assumptions": ["x86-64 ISA fragment"],
+    "level_text": "Theorems: for EVERY function-pointer type of the grammar the gate accepts iff the return type is bool (C10_gate: parenthesis-balance lemma over all renderings), the unchecked entry is refused, the pinned ends_with test is provably not equivalent (C10_endsWith_false); for every caller CPU state the installed stub returns to the caller with rax = v, rsp popped, all other registers, vector registers and flags unchanged, no store executed (C10_stub). Correspondence: gate on all family types incl. adversarial ones through the real API; stub bytes and real calls.",
+    "level_note": "AArch64 stub is C15_bool; 32-bit ARM stub is a branch to return_true/return_false (covered by C16's entry theorems).",
+}
